@@ -1,7 +1,7 @@
 //@ assume: TcpStream, BytesMut/Bytes (a byte queue: len, reserve, put_u8, truncate, split_to, advance, freeze), BufReader, MsgHeaderWrapper::read (decided on the real code by Kani in C19/msg_header), decode_message, UntrustedBlockHeader decoding, Instant and AttachmentMeta are abstract; Codec keeps its real fields; State is the real enum (extracted)
 //@ assume: T6 rewrites: `self.stream.read_exact(&mut self.buffer[pre_len..])` => helper read_exact_into(stream, buffer, pre_len) (fills buffer[pre_len..] or fails); `for _ in 0..to_read { self.buffer.put_u8(0); }` kept (range loop with invariant); `h.msg_type == Type::Headers` => helper is_headers; `reader.body()?` with the inferred type UntrustedBlockHeader => reader.body_untrusted_header()?; `header.into()` => helper; `e.into()` => helper io error conversion; `now.elapsed().as_secs()` / `Instant::now()` => helpers; `self.bytes_read += to_read` => helper add (overflow of the per-call byte counter NOT decided: it is bounded by one message's length); `std::cmp::min` => local min; log macros removed
 //@ assume: termination of the read loop is not proved (it blocks on the socket): exec_allows_no_decreases_clause
-//@ assume: decided here: Codec::read_inner (the frame state machine) (a) never underflows or indexes out of range in its length arithmetic, (b) leaves the Headers batching state only consistently: a Headers batch is returned with remaining == 0 only when the frame's announced bytes are exactly used up, a frame whose item count is exhausted while bytes remain (or whose bytes are exhausted while items remain, or whose count is 0) is refused with BadMessage and the state reset; a returned batch holds 1..=32 headers; after a non-final batch the state still expects exactly `remaining` items; (c) an unknown message type is skipped by exactly its announced length and the state reset
+//@ assume: decided here: Codec::read_inner (the frame state machine) (a) never underflows or indexes out of range in its length arithmetic, (b) leaves the Headers batching state only consistently: a Headers batch is returned with remaining == 0 only when the frame's announced bytes are exactly used up, a frame whose item count is exhausted while bytes remain (or whose bytes are exhausted while items remain, or whose count is 0 although body bytes follow) is refused with BadMessage and the state reset, while the EMPTY message (count 0, no body) is delivered as an empty list; a returned batch holds at most 32 headers; after a non-final batch the state still expects exactly `remaining` items; (c) an unknown message type is skipped by exactly its announced length and the state reset
 //@ assume: 64-bit target
 //@ assumed_items: 31
 //@ fns: Codec::read_inner, Codec::next_len
